@@ -20,7 +20,7 @@ SPEND = ['spend_missing', 'spend_spent', 'spend_other_fork', 'spend_same_block',
          'dup_ref_in_block', 'null_ref', 'sig_other_key', 'sig_other_message', 'outputs_changed',
          'input_added', 'input_removed', 'inputs_reordered', 'sigs_swapped', 'placeholder_sig',
          'coinbasedata_sig', 'junk_sig', 'low_height_steal', 'second_sig_junk', 'second_sig_copy', 'second_sig_other_key',
-         'replayed_sig_new_outputs']
+         'replayed_sig_new_outputs', 'spend_noncurve_key_output']
 VALUE = ['reward_plus_one', 'reward_plus_other_fee', 'out_zero', 'out_max_plus_one', 'outs_sum_over_max',
          'outs_exceed_inputs', 'out_2_64_minus_1', 'two_rewards', 'reward_not_first', 'reward_two_inputs',
          'reward_real_ref', 'low_height_mint', 'outs_exceed_inputs_comp']
@@ -371,6 +371,16 @@ def f_replayed_sig_new_outputs(sim, rb, op, d, a, b):
                 _add_tx(d, Transaction(list(t.inputs), [Output(total, thief.pk)]), 0)
                 return None
     return False
+
+
+def f_spend_noncurve_key_output(sim, rb, op, d, a, b):
+    """Spend of an output whose 'public key' is not a curve point (verification cannot even start)."""
+    cands = sorted(r for r, (v, pub) in rb.utxo.items() if W.key_by_pub(pub) is None and r not in d['used'] and pub == b'x' * 64)
+    if not cands:
+        return False
+    ref = cands[a % len(cands)]
+    sim.res.bump('probe:spend_of_noncurve_key_output')
+    _add_tx(d, make_tx([ref], [(rb.utxo[ref][0], key(b % N_KEYS))], [key(b % N_KEYS)]), 0)
 
 
 LOW_HEIGHTS = [7, 1, 499, 162_999, 100_001, 163_000 - 3]
